@@ -171,8 +171,17 @@ class SimSpec(common.Spec):
             edzed.reset_circuit()
             circuit = edzed.get_circuit()
             blocks = build()
-            circuit.finalize()          # creates the _not_ blocks; run_forever finalizes only once
-            instrument(circuit)
+            if len(case['blocks']) % 2:
+                circuit.finalize()      # creates the _not_ blocks; run_forever finalizes only once
+                instrument(circuit)
+            else:
+                # the usual way: the circuit is finalized by run_forever(); the blocks (the automatically
+                # created ones included) are instrumented right after that
+                def finalize_then_instrument(_orig=circuit.finalize):
+                    _orig()
+                    if not order:
+                        instrument(circuit)
+                circuit.finalize = finalize_then_instrument
 
             async def support():
                 try:
